@@ -287,15 +287,14 @@ def main(argv):
     rc = 0
     known_lines = {}
     new = []
+    unreproduced = []
     for k in sorted(viol, key=lambda k: (viol[k]["size"], k)):
         v = viol[k]
         # confirm by re-execution from scratch before believing it
         again = replay_case(mod, v["case"])
         if k not in again:
-            print("HARNESS-ERROR: violation not reproduced on re-execution "
-                  "(nondeterminism not owned): %s\n  first: %s\n  again: %s"
-                  % (k, v["msg"], sorted(again)))
-            return 2
+            unreproduced.append((k, v, sorted(again)))
+            continue
         f = match_finding(findings, pid, v["sig"])
         if f is not None:
             known_lines.setdefault(f["what"], 0)
@@ -303,6 +302,19 @@ def main(argv):
             write_replay(pid, modname, args.tier, v)
         else:
             new.append(v)
+    if unreproduced and not new:
+        # nothing else to report: a verdict that cannot be re-executed is not
+        # believed
+        k, v, again = unreproduced[0]
+        print("HARNESS-ERROR: violation not reproduced on re-execution "
+              "(nondeterminism not owned): %s\n  first: %s\n  again: %s"
+              % (k, v["msg"], again))
+        return 2
+    for k, v, again in unreproduced[:3]:
+        # reported next to confirmed violations: typically the footprint of
+        # state the library kept from an earlier case in the same process
+        print("NOTE: not reproduced when re-executed alone: %s | %s"
+              % (k, v["msg"].split("\n")[0][:160]))
     for what, n in sorted(known_lines.items()):
         print("KNOWN-FINDING: property=%s %s (occurrences this run: %d)"
               % (pid, what, n))
